@@ -307,10 +307,10 @@ fn prefix_for_slot(rng: &mut Rng, slot: usize) -> Vec<u8> {
 }
 
 pub fn run(cfg: &Cfg) -> Stats {
-    let (lb, lb20, nstreams, nreplay, maxlen) = match cfg.tier {
-        Tier::Tiny => (2u32, 2u32, 40u64, 30u64, 300usize),
-        Tier::Quick => (3, 4, 50_000, 20_000, 4096),
-        Tier::Thorough => (4, 5, 3_000_000, 500_000, 8192),
+    let (lb, lb20, nstreams, nreplay, maxlen, long_thr) = match cfg.tier {
+        Tier::Tiny => (2u32, 2u32, 40u64, 30u64, 300usize, 256usize),
+        Tier::Quick => (3, 4, 50_000, 20_000, 4096, 16384),
+        Tier::Thorough => (4, 5, 3_000_000, 500_000, 8192, 65536),
     };
     let mut st = par(cfg, |shard, n| {
         let mut st = Stats::new();
@@ -327,7 +327,10 @@ pub fn run(cfg: &Cfg) -> Stats {
         let mut i = shard;
         while i < nstreams {
             let mut rng = Rng::new(cfg.seed, 0xC02_0000_0000 + i);
-            let s = gen::gen_stream(&mut rng, maxlen, false);
+            let s = if i % 10 == 9 { gen::gen_long_stream(&mut rng, long_thr, false) } else { gen::gen_stream(&mut rng, maxlen, false) };
+            if i % 10 == 9 {
+                st.count("long_threshold_streams");
+            }
             if i < 4 {
                 st.sample(8, || {
                     let mut o = J::obj();
@@ -341,6 +344,50 @@ pub fn run(cfg: &Cfg) -> Stats {
             }
             eval_stream(&s, &mut st, None, "stream");
             i += n;
+        }
+        // very long strings (offsets that do not fit 8 / 12 / 16 bits), each followed by a short second string
+        if cfg.tier != Tier::Tiny {
+            let sizes: [usize; 14] = [255, 256, 257, 4095, 4096, 4097, 5000, 8192, 65534, 65535, 65536, 65537, 70000, 131075];
+            for (k, size) in sizes.iter().enumerate() {
+                for kind in 0..4u64 {
+                    if (k as u64 * 4 + kind) % n != shard {
+                        continue;
+                    }
+                    let mut rng = Rng::new(cfg.seed, 0xC02_4000_0000 + k as u64 * 4 + kind);
+                    let mut s: Vec<u8> = b"a".to_vec();
+                    match kind {
+                        0 => {
+                            s.extend_from_slice(b"\x1b]52;c;");
+                            for _ in 0..*size {
+                                s.push(rng.range(0x20, 0x7e) as u8);
+                            }
+                            s.extend_from_slice(if k % 2 == 0 { b"\x07" } else { b"\x18" });
+                        }
+                        1 => {
+                            s.extend_from_slice(b"\x1b]1337;");
+                            for _ in 0..*size {
+                                s.push(b'x');
+                            }
+                            s.extend_from_slice(b";tail\x1b\\");
+                        }
+                        2 => {
+                            s.extend_from_slice(b"\x1bP1;2$q");
+                            for _ in 0..(*size).min(20000) {
+                                s.push(rng.range(0x20, 0x7e) as u8);
+                            }
+                            s.extend_from_slice(b"\x1b\\");
+                        }
+                        _ => {
+                            for _ in 0..(*size).min(20000) {
+                                s.extend_from_slice("\u{e9}x".as_bytes());
+                            }
+                        }
+                    }
+                    s.extend_from_slice(b"b\x1b]0;title\x07c\x1b[1;2md\x1bP0q#\x1b\\e");
+                    st.count("very_long_string_streams");
+                    eval_stream(&s, &mut st, None, "very-long");
+                }
+            }
         }
         let mut i = shard;
         while i < nreplay {
